@@ -190,6 +190,7 @@ def algebra(ck, fb):
                          lambda e, s, f=khalf[0]: ev.call(f, None, [e, s]), lambda h, f=kfull[0]: ev.call(f, None, [h]),
                          lambda h, f=kopp[0]: ev.call(f, None, [h]), lambda h, f=subidx[0]: ev.call(f, h, []), khalf[0]))
     n = 0
+    broke = False
     for label, half, full, opp, subidx, anchor in families:
         try:
             e = Lin(1, 0)
@@ -208,8 +209,12 @@ def algebra(ck, fb):
                     n += 1
                     (ck.ok if ok else lambda r, w, t: ck.violate(r, w, t, "C08.algebra:%s:%s" % (label, txt)))("C08.algebra", anchor.where, "%s: %s for all q" % (label, txt))
         except Unsupported as ex:
-            raise AnalysisBroken("C08: %s: expression outside the supported domain: %s" % (label, ex))
-    ck.floor("algebra_laws_evaluated", n, 60)
+            # the symbolic domain (straight-line linear forms) cannot express this formulation; the compile-time witness still
+            # evaluates the members at the domain boundaries and over three ranges, so a violation found there is reported
+            ck.cannot_judge("C08: %s: expression outside the supported domain of the symbolic evaluation: %s" % (label, ex))
+            broke = True
+    if not broke:
+        ck.floor("algebra_laws_evaluated", n, 60)
 
 
 def mirror(ck, fb):
